@@ -186,6 +186,41 @@ func c06(repo string, out *fg.Out) error {
 		}
 	}
 
+	// ---- ParseEnvelope: the bound `3 + dbLen` must be computed in int (no uint16 wrap-around):
+	//      <end> := 3 + int(binary.BigEndian.Uint16(payload[1:3])); if <end> <= len(payload) { return string(payload[3:<end>]), payload[<end>:] }
+	pf, parseEnv := fg.FindFunc(files, "", "ParseEnvelope")
+	envEnd := ""
+	ast.Inspect(parseEnv.Body, func(n ast.Node) bool {
+		as, ok := n.(*ast.AssignStmt)
+		if !ok || len(as.Lhs) != 1 || len(as.Rhs) != 1 {
+			return true
+		}
+		if strings.ReplaceAll(pf.Text(as.Rhs[0]), " ", "") == "3+int(binary.BigEndian.Uint16(payload[1:3]))" {
+			if id, ok := as.Lhs[0].(*ast.Ident); ok {
+				envEnd = id.Name
+			}
+		}
+		return true
+	})
+	if envEnd == "" {
+		return fmt.Errorf("ParseEnvelope: `<end> := 3 + int(binary.BigEndian.Uint16(payload[1:3]))` not found (is the bound computed in uint16 again?)")
+	}
+	envOK := false
+	ast.Inspect(parseEnv.Body, func(n ast.Node) bool {
+		is, ok := n.(*ast.IfStmt)
+		if !ok {
+			return true
+		}
+		if strings.ReplaceAll(pf.Text(is.Cond), " ", "") == envEnd+"<=len(payload)" && len(is.Body.List) == 1 &&
+			strings.ReplaceAll(pf.Text(is.Body.List[0]), " ", "") == "returnstring(payload[3:"+envEnd+"]),payload["+envEnd+":]" {
+			envOK = true
+		}
+		return true
+	})
+	if !envOK {
+		return fmt.Errorf("ParseEnvelope: `if %s <= len(payload) { return string(payload[3:%s]), payload[%s:] }` not found", envEnd, envEnd, envEnd)
+	}
+
 	// ---- ReadAll: the loop `for { entry, err := r.readEntry(f); if err == io.EOF {break}; if err != nil {…; POLICY}; … }`
 	_, readAll := fg.FindFunc(files, "Reader", "ReadAll")
 	if readAll == nil {
@@ -337,6 +372,8 @@ func c06(repo string, out *fg.Out) error {
 	fmt.Fprintf(w, "/-- … and after a CRC-valid entry that fails to deserialise: true = `continue` -/\n")
 	fmt.Fprintf(w, "def decodeErrContinues : Bool := %v\n", decodeCont)
 	fmt.Fprintf(w, "def policyShape : String := %s\n", fg.LeanStr(policyShape))
+	fmt.Fprintf(w, "/-- ParseEnvelope computes `3 + dbLen` in int (shape checked above): no uint16 wrap-around -/\n")
+	fmt.Fprintf(w, "def envelopeBoundInInt : Bool := true\n")
 	fmt.Fprintf(w, "end Arc.Generated.C06\n")
 	for k, v := range vals {
 		out.JSON[k] = v
@@ -346,5 +383,6 @@ func c06(repo string, out *fg.Out) error {
 	out.JSON["frame_err_continues"] = frameCont
 	out.JSON["decode_err_continues"] = decodeCont
 	out.JSON["policy_shape"] = policyShape
+	out.JSON["envelope_bound_in_int"] = true
 	return nil
 }
